@@ -68,7 +68,7 @@ func draw(t *rapid.T) *pbt.Case {
 		maxB = 20
 	}
 	c := &pbt.Case{}
-	g := gen.Default(gen.Regular()).Boost(2, gen.BarrierKinds...).Boost(2, "tags", "secondary", "mark", "join", "safedetails", "stack", "telemetry")
+	g := gen.Default(gen.Regular()).Boost(2, gen.BarrierKinds...).Boost(2, "tags", "secondary", "mark", "join", "safedetails", "stack").Boost(4, "telemetry")
 	c.Spec = g.Draw(t, rapid.IntRange(1, maxB).Draw(t, "budget"))
 	c.SetInt("decoded", rapid.IntRange(0, 1).Draw(t, "decoded"))
 	return c
@@ -92,7 +92,13 @@ func check(c *pbt.Case, r *pbt.R) {
 		}
 	}
 	shared, twin := es[0], es[1]
+	// Read-only use does not modify the error: its encoding is the same
+	// before and after all observers have run.
+	pristineBytes := wire.Encode(es[1])
 	want := observe(twin)
+	if after := wire.Encode(twin); string(after) != string(pristineBytes) {
+		r.Failf("observing an error modifies it (its encoding changes)", "spec %s", c.Spec)
+	}
 	// ... and executing alone twice gives the same result (an observer
 	// that modifies the error would show here even without a second goroutine).
 	if again := observe(twin); again != want {
